@@ -13,7 +13,8 @@ From Coq Require Import List Arith ZArith Bool.
 Import ListNotations.
 Require Import MD.Topo.Model MD.Topo.Carriers MD.Topo.Run MD.Topo.Basics MD.Topo.Build MD.Topo.AbsWalk MD.Topo.Copy
   MD.Topo.EqHash MD.Topo.Frame MD.Topo.Independent MD.Topo.Subset MD.Topo.CarrierProofs MD.Topo.BuildFrom MD.Topo.Join
-  MD.Topo.Wf MD.Topo.Results MD.Topo.Inv MD.Topo.JoinFull MD.Topo.EqEquiv MD.Topo.Pickle MD.Topo.Witness.
+  MD.Topo.Wf MD.Topo.Results MD.Topo.Inv MD.Topo.JoinFull MD.Topo.EqEquiv MD.Topo.Pickle MD.Topo.Witness
+  MD.Topo.InvAll MD.Topo.PdbProofs MD.Topo.SubsetSet MD.Topo.PdbAtoms MD.Topo.EqCarrier.
 
 (* ---------------------------------------------------------------- copy / deepcopy *)
 (* the repaired copy() preserves every atom (name, element, serial, index), residue (name, number,
@@ -402,3 +403,151 @@ Example subset_runs_on_witness :
   exists h' t' v, abs wit_h wit_t = Some v /\ subset flags_fix wit_h wit_t wit_keep = Some (h', t').
 Proof. exact wit_subset_fix_runs. Qed.
 Print Assumptions subset_runs_on_witness.
+
+(* ---------------------------------------------------------------- histories of EVERY op (deepening round) *)
+(* The headline without a side condition on the op list: pickle round trips and the three carriers (to_dataframe +
+   from_dataframe, HDF5 save + load, PDB save + load) are ops of the induction too, so the statement covers the whole
+   quantifier of the property: after ANY finite sequence of new / add_* / insert_atom / delete_atom_by_index / copy /
+   subset / join / pickle / data frame / .h5 / .pdb round trips applied (repaired variants) to any of the topologies
+   created so far, every topology is well formed and any two share no reachable object. *)
+Theorem wf_inv_all : forall ops i t,
+  nth_error (st_tops (run flags_fix ops)) i = Some t -> wf (st_heap (run flags_fix ops)) t.
+Proof. exact InvAll.wf_inv_all. Qed.
+Print Assumptions wf_inv_all.
+
+Theorem independent_inv_all : forall ops i j ti tj,
+  i <> j ->
+  nth_error (st_tops (run flags_fix ops)) i = Some ti -> nth_error (st_tops (run flags_fix ops)) j = Some tj ->
+  disjoint (reach (st_heap (run flags_fix ops)) ti) (reach (st_heap (run flags_fix ops)) tj).
+Proof. exact InvAll.independent_inv_all. Qed.
+Print Assumptions independent_inv_all.
+
+Theorem inv_step_all : forall st o, inv st -> inv (step flags_fix st o).
+Proof. exact InvAll.inv_step_all. Qed.
+Print Assumptions inv_step_all.
+
+(* the two result lemmas behind it: a topology decoded from any carrier description, and an unpickled topology, are
+   well formed, consist of fresh objects only, and nothing that existed is modified *)
+Theorem build_from_result : forall h d h' t',
+  hwf h -> build_from h d = Some (h', t') ->
+  wf h' t' /\ agree (h_next h) h h' /\ h_next h <= h_next h' /\ (forall l, In l (reach h' t') -> h_next h <= l).
+Proof. exact InvAll.build_from_result. Qed.
+Print Assumptions build_from_result.
+
+Theorem pickle_result : forall h t,
+  wf h t ->
+  wf (fst (pickle h t)) (snd (pickle h t)) /\ agree (h_next h) h (fst (pickle h t)) /\
+  h_next h <= h_next (fst (pickle h t)) /\
+  (forall l, In l (reach (fst (pickle h t)) (snd (pickle h t))) -> h_next h <= l).
+Proof. exact InvAll.pickle_result. Qed.
+Print Assumptions pickle_result.
+
+(* == implies equal hash on every topology reachable by any history, round trips included *)
+Theorem eq_hash_reachable_all : forall ops i j ti tj va vb ka kb,
+  let st := run flags_fix ops in
+  nth_error (st_tops st) i = Some ti -> nth_error (st_tops st) j = Some tj ->
+  abs (st_heap st) ti = Some va -> abs (st_heap st) tj = Some vb ->
+  hash_keys flags_fix (st_heap st) ti = Some ka -> hash_keys flags_fix (st_heap st) tj = Some kb ->
+  teq va vb = true -> xor_equal ka kb = true.
+Proof. exact InvAll.eq_hash_reachable_all. Qed.
+Print Assumptions eq_hash_reachable_all.
+
+(* non-vacuity: a history with every kind of op in which no op raises and every round trip returns atoms and bonds *)
+Example history_all_witness :
+  let st := run flags_fix all_ops in
+  forallb negb (st_status st) = true /\ map t_numAtoms (st_tops st) = [4; 4; 3; 5; 4; 4; 8] /\
+  map (fun t => length (t_bonds t)) (st_tops st) = [3; 3; 2; 3; 3; 3; 6].
+Proof. exact all_ops_run. Qed.
+Print Assumptions history_all_witness.
+
+(* ---------------------------------------------------------------- PDB: CONECT and ATOM numbering agree *)
+(* for EVERY heap and topology on which the repaired writer runs: every number occurring in a CONECT record is a
+   number printed in an ATOM record of the same file (refuted for the writer as found: pdb_conect_agrees_current_refuted).
+   Not proved: that the number is the one of the RIGHT atom for every topology (runs + bond-graph oracle). *)
+Theorem pdb_conect_agrees_partial : forall ter h t recs,
+  pdb_write flags_fix ter h t = Some recs -> conect_refers_to_atoms recs = true.
+Proof. exact PdbProofs.pdb_conect_agrees. Qed.
+Print Assumptions pdb_conect_agrees_partial.
+
+(* the ATOM numbers, in file order, are the list the writer hands to its footer, and each lies in 0..99999 *)
+Theorem pdb_atom_numbers_written : forall single ter cs recs nums,
+  pdb_atoms_chains single ter cs 0 1 = (recs, nums) ->
+  atom_numbers recs = nums /\ Forall (fun z => (0 <= z < 100000)%Z) nums.
+Proof. exact PdbProofs.pdb_atom_numbers_written. Qed.
+Print Assumptions pdb_atom_numbers_written.
+
+Example pdb_conect_agrees_witness :
+  let st := run flags_fix pdb_ops5 in
+  exists recs, pdb_write flags_fix true (st_heap st) (slot st 0) = Some recs /\ 8 <= length (conect_numbers recs).
+Proof. exact PdbProofs.pdb_conect_agrees_witness. Qed.
+Print Assumptions pdb_conect_agrees_witness.
+
+(* CONECT continuation lines: the repaired writer prints every partner of an atom exactly once, in order, on lines
+   headed by the atom's own number with at most four partners each -- for every partner list; as found an atom with
+   five partners loses one *)
+Theorem pdb_conect_lines_complete : forall fuel i bonded,
+  length bonded <= fuel ->
+  partners (conect_lines 3 fuel i bonded) = bonded /\
+  Forall (fun r => exists js, r = PConect (i :: js) /\ length js <= 4) (conect_lines 3 fuel i bonded).
+Proof. exact PdbProofs.conect_lines_fix_complete. Qed.
+Print Assumptions pdb_conect_lines_complete.
+
+Theorem pdb_conect_lines_current_refuted :
+  exists i bonded, length bonded <= 5 /\ partners (conect_lines 4 5 i bonded) <> bonded.
+Proof. exact PdbProofs.conect_lines_cur_loses. Qed.
+Print Assumptions pdb_conect_lines_current_refuted.
+
+(* ---------------------------------------------------------------- PDB: the ATOM/TER part comes back *)
+(* TER lines written (the default).  For EVERY list of chains in which every chain has a residue, every residue an
+   atom, and consecutive residues of a chain differ in (resSeq mod 10000, first 3 characters of the name), the
+   reader's chain/residue splitting rebuilds from the writer's records exactly the written chains, residues and
+   atoms: chain id = first character of chain_id (or the letter of the position), residue name cut to 3, resSeq mod
+   10000, segment id and atom name cut to 4, element symbol unchanged -- also when neighbouring chains carry the same
+   id and the same residue number (the TER line separates them).  Serials are erased on both sides here (they are
+   characterised by pdb_atom_numbers_written).  Partial with respect to the PDB round trip as a whole: the reader's
+   renaming tables, element guessing and the bond part are not in this statement; ter=False is not covered. *)
+Theorem pdb_atoms_roundtrip_partial : forall single cs recs nums,
+  pdb_exact cs -> pdb_atoms_chains single true cs 0 1 = (recs, nums) ->
+  map strip_dchain (pdb_read_chains (pdb_atoms_of recs false)) = expected_chains cs 0.
+Proof. exact PdbAtoms.pdb_atoms_roundtrip. Qed.
+Print Assumptions pdb_atoms_roundtrip_partial.
+
+Example pdb_exact_witness :
+  pdb_exact exact_cs /\ exists recs nums, pdb_atoms_chains false true exact_cs 0 1 = (recs, nums) /\ length nums = 4.
+Proof. exact exact_cs_ok. Qed.
+Print Assumptions pdb_exact_witness.
+
+(* ---------------------------------------------------------------- subset: unsorted lists and duplicates *)
+(* "atom.index in atom_indices": the specified restriction depends only on WHICH indices occur in the list; so
+   subset_abs / subset_spec_* (stated for arbitrary lists) say that an unsorted list or a list with duplicates gives
+   exactly what the strictly increasing list of the same indices gives *)
+Theorem subset_v_same_set : forall k1 k2 v, same_set k1 k2 -> subset_v k1 v = subset_v k2 v.
+Proof. exact SubsetSet.subset_v_same_set. Qed.
+Print Assumptions subset_v_same_set.
+
+Theorem subset_same_set : forall h t k1 k2 h1 t1 h2 t2 v,
+  wfo h t -> abs h t = Some v -> same_set k1 k2 ->
+  subset flags_fix h t k1 = Some (h1, t1) -> subset flags_fix h t k2 = Some (h2, t2) ->
+  abs h1 t1 = abs h2 t2.
+Proof. exact SubsetSet.subset_same_set. Qed.
+Print Assumptions subset_same_set.
+
+Example same_set_witness : same_set [2; 0; 2; 1] [0; 1; 2].
+Proof. exact SubsetSet.same_set_witness. Qed.
+Print Assumptions same_set_witness.
+
+(* ---------------------------------------------------------------- == after the data-frame round trip *)
+(* exact case of the carrier (df_exact), bonds as add_bond stores them (smaller index first, legal order): what the
+   repaired from_dataframe rebuilds from the frames of to_dataframe compares equal (==) to the source, in both
+   directions -- == ignores exactly what the frame cannot hold (chain ids).  Partial: outside df_exact residues or
+   chains merge and == fails (the frame cannot represent the source). *)
+Theorem eq_preserved_dataframe_partial : forall h v h' t',
+  hwf h -> normal (vt_chains v) -> df_exact v -> Forall vbond_ok (vt_bonds v) -> Forall oriented (vt_bonds v) ->
+  build_from h (df_round true v) = Some (h', t') ->
+  exists v', abs h' t' = Some v' /\ teq v v' = true /\ teq v' v = true.
+Proof. exact EqCarrier.df_roundtrip_eq. Qed.
+Print Assumptions eq_preserved_dataframe_partial.
+
+Example eq_preserved_dataframe_witness : Forall oriented (vt_bonds df_v) /\ vt_bonds df_v <> [].
+Proof. exact EqCarrier.df_eq_witness. Qed.
+Print Assumptions eq_preserved_dataframe_witness.
